@@ -7,6 +7,8 @@ namespace hist { namespace special {
 // ---------------------------------------------------------------------------------------------
 // pristine-process solo runs (C12): a zygote forked before the first library call forks one child
 // per solo run; the child executes one script alone and sends its observation trace back.
+struct Ctx2dHook { void (*fn)(const History&, Ctx&, std::map<int, std::shared_ptr<CodeRef>>&) = nullptr; };
+static Ctx2dHook g_inject_hook;   // set once inject_2d is defined (2D sessions inside pristine runs)
 static int zy_to = -1, zy_from = -1;
 static pid_t zy_pid = -1;
 
@@ -33,7 +35,9 @@ inline void zygote_loop(int rfd, int wfd) {
       std::vector<uint64_t> out;
       if (from_text(txt, h, &err)) {
         Ctx cx; cx.enabled = 0; cx.want_trace = true;
-        RunResult rr = run_history(h, cx);
+        std::map<int, std::shared_ptr<CodeRef>> inj;
+        if (g_inject_hook.fn) g_inject_hook.fn(h, cx, inj);
+        RunResult rr = run_history(h, cx, inj.empty() ? nullptr : &inj);
         out.push_back(cx.features);
         out.push_back(rr.traces.size());
         for (auto& tr : rr.traces) { out.push_back(tr.size()); for (auto& t : tr) out.push_back(t.h); }
@@ -176,6 +180,11 @@ inline History gen_lastnull_case(const PropSpec& ps, Chooser& ch) {
     c.N1 = ch.pick<uint32_t>({4, 6, 8, 10}); c.k = ch.range(1, 40); uint32_t m256 = ch.range(1, 2);
     c.r = (256 * m256 + c.N1 * c.k) / 2 + ch.pick<uint32_t>({0, 0, 0, 1});
     c.L = ch.range(1, 9);
+  } else if (ch.next() % 200 == 199) {
+    // the same boundary one counter width up: 2(n-k) - N1 k = 65536 (blocks of ~33 000 one-byte symbols)
+    c.N1 = ch.pick<uint32_t>({4, 6, 8, 10}); c.k = ch.range(1, 30);
+    c.r = 32768 + c.N1 * c.k / 2 + ch.pick<uint32_t>({0, 0, 0, 1});
+    c.L = 1; c.payload = PAY_RANDOM;
   }
   Script e; e.cfg = c; e.role = ROLE_ENC;
   { Step sp; sp.op = OP_SETPARAMS; e.steps.push_back(sp); }
@@ -352,6 +361,21 @@ inline Obs2D observe_2d(const Config& cfg) {
   return o;
 }
 
+// every 2D-parity script of a history gets the code observed from the library's encoder injected
+inline void inject_2d(const History& h, Ctx& cx, std::map<int, std::shared_ptr<CodeRef>>& inj) {
+  static std::map<std::string, Obs2D> cache;
+  for (size_t i = 0; i < h.scripts.size(); i++) {
+    const Config& c = h.scripts[i].cfg;
+    if (c.codec != CODEC_P2D) continue;
+    std::string key = std::to_string(c.k) + "/" + std::to_string(c.r) + "/" + std::to_string(c.L) + "/" + std::to_string(c.payload) + "/" + std::to_string(c.pseed);
+    auto it = cache.find(key);
+    if (it == cache.end()) { if (cache.size() > 64) cache.clear(); it = cache.emplace(key, observe_2d(c)).first; }
+    if (it->second.status == 2) cx.fail(O_2D, it->second.sig, it->second.msg);
+    else if (it->second.status == 0) inj[(int)i] = it->second.code;
+    else cx.features |= F_REJECTED;
+  }
+}
+
 inline History p2d_history(uint32_t k, uint32_t r, uint64_t mask, int api, int order, uint64_t oseed, bool finish, int payload, uint64_t pseed, uint32_t L, int cut);
 
 // Deep staircase unroll (adversarial arrival order built from the reference code): every source symbol
@@ -391,6 +415,8 @@ inline History gen_deep_chain(Chooser& ch, const GenOpts& o, bool with_finish) {
   return h;
 }
 
+static const bool g_hook_set = (g_inject_hook.fn = &inject_2d, true);
+
 // ---------------------------------------------------------------------------------------------
 inline History generate(const PropSpec& ps, Chooser& ch) {
   switch (ps.kind) {
@@ -400,16 +426,32 @@ inline History generate(const PropSpec& ps, Chooser& ch) {
       // or cached state between sessions is where use-after-free and double free hide)
       uint32_t w = ch.next() % 12;
       if (w >= 9) { GenOpts g = ps.go; g.max_k_ldpc = std::min<uint32_t>(g.max_k_ldpc, 40); g.max_n_ldpc = std::min<uint32_t>(g.max_n_ldpc, 80); g.max_n_rs = 40; return gen_multi(ch, g); }
-      if ((ps.go.codecs & GC_LDPC) && ch.next() % 160 == 159) return gen_deep_chain(ch, ps.go, false);
+      if (ps.go.heavy && (ps.go.codecs & GC_LDPC) && ch.next() % 160 == 159) return gen_deep_chain(ch, ps.go, false);
       return w >= 6 ? gen_single_encoder(ch, ps.go) : gen_single_decoder(ch, ps.go);
     }
-    case 3: return gen_multi(ch, ps.go);
+    case 3: {
+      History h = gen_multi(ch, ps.go);
+      if (ch.next() % 6 == 5) {   // a 2D-parity neighbour (another codec sharing the IT/ML decoder code)
+        static const uint32_t shapes[][2] = {{4, 4}, {6, 5}, {9, 6}, {8, 6}, {12, 7}, {16, 8}, {3, 4}, {2, 3}, {10, 7}};
+        uint32_t w = ch.next() % 9; uint32_t k = shapes[w][0], r = shapes[w][1];
+        uint64_t m = ch.seed64() & ((1ull << (k + r)) - 1);
+        History p = p2d_history(k, r, m, ch.next() % 2, ch.next() % 4, ch.seed64(), ch.coin(2, 3), PAY_RANDOM, ch.next(), ch.range(1, 20), -1);
+        h.scripts.push_back(p.scripts[0]);
+        uint64_t x = ch.seed64(); std::vector<uint32_t> in2;
+        for (uint32_t v : h.inter) { in2.push_back(v); if (splitmix(x) % 3 == 0) in2.push_back((uint32_t)h.scripts.size() - 1); }
+        h.inter = in2;
+      }
+      return h;
+    }
     case 4: return gen_code_case(ps, ch);
     case 5: return gen_lastnull_case(ps, ch);
     case 6: return gen_param_case(ps, ch);
     case 7: { uint32_t k = ch.range(1, 16), r = ch.range(2, 10); uint64_t m = ch.seed64(); return p2d_history(k, r, m & ((1ull << (k + r)) - 1), ch.next() % 2, ch.next() % 4, ch.seed64(), ch.coin(2, 3), ch.next() % 2, ch.next(), ch.range(1, 40), -1); }
     default:
-      if ((ps.go.codecs & GC_LDPC) && ps.go.api_mode != 2 && ch.next() % 160 == 159) return gen_deep_chain(ch, ps.go, ps.go.finish_mode == 1);
+      if (ps.go.heavy && (ps.go.codecs & GC_LDPC) && ps.go.api_mode != 2 && ch.next() % 160 == 159) return gen_deep_chain(ch, ps.go, ps.go.finish_mode == 1);
+      // one case in eight: the session under test has neighbours (caches and shared contexts keyed on part of
+      // the parameters make a session's statuses and data depend on who else is alive)
+      if (ch.next() % 8 == 7) { GenOpts g = ps.go; g.max_k_ldpc = std::min<uint32_t>(g.max_k_ldpc, 40); g.max_n_ldpc = std::min<uint32_t>(g.max_n_ldpc, 80); g.max_n_rs = std::min<uint32_t>(g.max_n_rs, 60); return gen_multi(ch, g); }
       return gen_single_decoder(ch, ps.go);
   }
 }
@@ -419,19 +461,7 @@ inline CaseResult run_core(const History& h, const PropSpec& ps, Stats* st, bool
   CaseResult cr;
   if (ps.kind == 6) for (auto& s : h.scripts) if (is_boundary(s.cfg)) cx.features |= F_BOUNDARY;
   std::map<int, std::shared_ptr<CodeRef>> inj;
-  if (ps.kind == 7) {
-    static std::map<std::string, Obs2D> cache;
-    for (size_t i = 0; i < h.scripts.size(); i++) {
-      const Config& c = h.scripts[i].cfg;
-      if (c.codec != CODEC_P2D) continue;
-      std::string key = std::to_string(c.k) + "/" + std::to_string(c.r) + "/" + std::to_string(c.L) + "/" + std::to_string(c.payload) + "/" + std::to_string(c.pseed);
-      auto it = cache.find(key);
-      if (it == cache.end()) { if (cache.size() > 64) cache.clear(); it = cache.emplace(key, observe_2d(c)).first; }
-      if (it->second.status == 2) cx.fail(O_2D, it->second.sig, it->second.msg);
-      else if (it->second.status == 0) inj[(int)i] = it->second.code;
-      else cx.features |= F_REJECTED;
-    }
-  }
+  inject_2d(h, cx, inj);
   if (ps.kind == 3) {
     // C12: the interleaved run AND every solo run happen in pristine forked processes, so a case is a pure
     // function of its history (static library state left by earlier cases cannot leak into it)
@@ -616,8 +646,54 @@ inline void enumerate_small(const PropSpec& ps, const Tier& t, int worker, int n
       }
     }
   }
+  // ---- sweeps along one axis with cheap cases: arithmetic coincidences on a size (tile widths, strides,
+  // counter widths, magic lengths) only show at particular values, so the axis is walked completely
+  {
+    // symbol length: every L in 1..65536 (thorough) or a ladder of multiples of 512 +-1 plus protocol sizes (quick)
+    std::vector<uint32_t> Ls;
+    if (t.thorough) for (uint32_t L = 1; L <= 65536; L++) Ls.push_back(L);
+    else { for (uint32_t L = 512; L <= 65536; L += 512) { Ls.push_back(L - 1); Ls.push_back(L); Ls.push_back(L + 1); } for (uint32_t L : {1472u, 8972u, 9000u, 12288u, 65507u, 65535u}) Ls.push_back(L); }
+    std::vector<Config> lc;
+    auto mk = [&](int codec, uint32_t m, uint32_t k, uint32_t r, uint32_t N1, uint32_t sd) { Config c; c.codec = codec; c.m = m; c.k = k; c.r = r; c.N1 = N1; c.seed = sd; c.payload = PAY_RANDOM; return c; };
+    if (ps.go.codecs & GC_RS8) lc.push_back(mk(CODEC_RS8, 8, 3, 2, 3, 1));
+    if (ps.go.codecs & GC_RSM8) lc.push_back(mk(CODEC_RSM, 8, 3, 2, 3, 1));
+    if (ps.go.codecs & GC_RSM4) lc.push_back(mk(CODEC_RSM, 4, 3, 2, 3, 1));
+    if (ps.go.codecs & GC_LDPC) { lc.push_back(mk(CODEC_LDPC, 8, 4, 4, 3, 1)); lc.push_back(mk(CODEC_LDPC, 8, 8, 4, 4, 1)); }   // odd and even N1 (the latter injects a zero symbol)
+    uint64_t swept = 0;
+    for (const Config& c0 : lc)
+      for (uint32_t L : Ls) {
+        if ((idx++ % (uint64_t)nworkers) != (uint64_t)worker) continue;
+        Config c = c0; c.L = L; c.pseed = L;
+        uint32_t n = c.k + c.r;
+        // lose source 1 and the last repair; everything else arrives; finish
+        uint64_t mask = ((1ull << n) - 1) & ~(1ull << 1) & ~(1ull << (n - 1));
+        int api = (ps.go.api_mode == 2) ? 1 : (ps.go.api_mode == 1 ? 0 : (int)(L & 1));
+        bool fin = ps.go.finish_mode != 2;
+        int cb = ps.go.cb_mode == 1 ? 1 + (int)(L % 3) : (ps.go.cb_mode == 2 ? 0 : (int)(L % 4));
+        if (!one(dec_history(c, mask, api, (int)(L % 3), mix2(seed, L), fin, cb, false, -1))) return;
+        swept++;
+      }
+    if (st_out) st_out->subspaces.push_back(std::string("symbol length sweep: ") + (t.thorough ? "every L in 1..65536" : "multiples of 512 +-1 up to 65536 and protocol sizes (1472, 8972, 9000, 12288, 65507, 65535)") + " on " + std::to_string(lc.size()) + " tiny codes with one source and one repair lost: complete");
+    // number of repair symbols (LDPC, thorough only): every r in 3..49999 with k = 1, N1 = 3, losing {s0, p0, p1}:
+    // iterative decoding is stuck (every equation keeps two unknowns) and the 3x3 system is solvable
+    if (t.thorough && (ps.go.codecs & GC_LDPC) && ps.go.finish_mode != 2) {
+      for (uint32_t r = 3; r <= 49999; r++) {
+        if ((idx++ % (uint64_t)nworkers) != (uint64_t)worker) continue;
+        Config c; c.codec = CODEC_LDPC; c.k = 1; c.r = r; c.N1 = 3; c.seed = 1 + r % 5; c.L = 1; c.payload = PAY_RANDOM; c.pseed = r;
+        History h; Script sc; sc.cfg = c; sc.role = ROLE_DEC; sc.cbmode = 1;
+        Step sp; sp.op = OP_SETPARAMS; sc.steps.push_back(sp);
+        Step a; a.op = OP_AVAIL; for (uint32_t e = 3; e < 1 + r; e++) a.set.push_back(e); sc.steps.push_back(a);
+        Step f; f.op = OP_FINISH; sc.steps.push_back(f);
+        h.scripts.push_back(sc);
+        if (!one(h)) return;
+        swept++;
+      }
+      if (st_out) st_out->subspaces.push_back("repair count sweep (LDPC): every n-k in 3..49999 with k=1, N1=3, the source and the first two repairs lost (ML needed, 3x3 system): complete");
+    }
+    extra_json = "\"x_axis_sweep_cases_this_worker\":" + std::to_string(swept);
+  }
   if (st_out) { st_out->exhaustive = true; st_out->subspaces.push_back("every received subset (2^n) of " + std::to_string(cfgs.size()) + " small codes (RS n <= " + std::to_string(nmax_rs) + ", LDPC n <= " + std::to_string(nmax_ldpc) + ") x submission API x finish/no finish, canonical + one seeded order: complete"); }
-  extra_json = "\"x_small_codes\":" + std::to_string(cfgs.size()) + ",\"x_patterns_this_worker\":" + std::to_string(patterns);
+  extra_json += std::string(extra_json.empty() ? "" : ",") + "\"x_small_codes\":" + std::to_string(cfgs.size()) + ",\"x_patterns_this_worker\":" + std::to_string(patterns);
 }
 
 template <class F>
